@@ -1,6 +1,7 @@
 package checks
 
 import (
+	"github.com/trustbloc/sidetree-go/pkg/vdr/sidetreelongform/dochandler"
 	"fmt"
 	"github.com/trustbloc/sidetree-go/pkg/versions/1_0/model"
 	"strings"
@@ -159,6 +160,26 @@ func c03Case(c *fw.Case) {
 			}
 		}
 	}
+	// a long-form DID names its suffix in one spelling only: another base64url text that merely decodes to the same bytes (spare
+	// trailing bits set) is a different, unknown suffix for the resolving handler
+	if c.Idx%4 == 0 {
+		if hd, herr := dochandler.New("did:ion"); herr == nil {
+			canon := oracle.B64(oracle.MustJCS(oracle.MustGeneric(b.ReqObj)))
+			if op19, perr := sut.SharedStack(sut.Proto()).Parser.Parse("did:ion", b.Request); perr == nil {
+				good := "did:ion:" + op19.UniqueSuffix + ":" + canon
+				if _, gerr := hd.ResolveDocument(good); gerr == nil {
+					alias := nonCanonicalSpelling(r, op19.UniqueSuffix)
+					c.Count("suffix-alias-resolutions", 1)
+					c.Evals(1)
+					if alias != op19.UniqueSuffix {
+						if _, aerr := hd.ResolveDocument("did:ion:" + alias + ":" + canon); aerr == nil {
+							c.Failf("suffix-alias-resolved", map[string]interface{}{"did": good, "alias_suffix": alias}, "a long-form DID whose suffix is another spelling of the same bytes (%s for %s) resolves", alias, op19.UniqueSuffix)
+						}
+					}
+				}
+			}
+		}
+	}
 	// the same request denotes the same DID whatever the parser was asked in between: here a create it has to refuse because one
 	// of its hashes uses an algorithm that is not configured
 	{
@@ -272,6 +293,18 @@ func c03Case(c *fw.Case) {
 				parts := strings.SplitN(ao, "|", 2)
 				sd(q)["anchorOrigin"] = parts[0]
 				sd(q)["type"] = parts[1] + "|" + t
+			}
+		}},
+		{"suffixData.deltaHash-truncated-digest-with-other-delta", func(q map[string]interface{}) {
+			// a well-formed multihash whose digest is a proper prefix (0, 1 or 8 bytes) of the true one does not bind the delta
+			if dh, ok := sd(q)["deltaHash"].(string); ok {
+				if dm, err := oracle.DecodeEncodedMultihash(dh); err == nil {
+					n := fw.Pick(r, []int{0, 1, 8})
+					sd(q)["deltaHash"] = oracle.B64(oracle.WrapDigest(dm.Code, dm.Digest[:n]))
+					if r.Bool() {
+						dl(q)["patches"] = []interface{}{gen.PAddAka("did:example:swapped")}
+					}
+				}
 			}
 		}},
 		{"delta-and-hash-replaced-consistently", func(q map[string]interface{}) {
